@@ -220,7 +220,45 @@ def has_history(d):
     return False
 
 
+PREC_FLAGS = ("f32_Mb", "f32_mu")
+
+
+def _has_prec(x):
+    if isinstance(x, dict):
+        return any((k in PREC_FLAGS and v) or _has_prec(v) for k, v in x.items())
+    if isinstance(x, (list, tuple)):
+        return any(_has_prec(v) for v in x)
+    return False
+
+
+def _strip_prec(x):
+    if isinstance(x, dict):
+        return {k: _strip_prec(v) for k, v in x.items() if k not in PREC_FLAGS}
+    if isinstance(x, list):
+        return [_strip_prec(v) for v in x]
+    return x
+
+
 def with_history(run):
+    hist_run = _with_history(run)
+    def wrapped(d):
+        """+ precision invariance: parameters handed over as float32 arrays (values exactly representable) are ordinary
+        inputs of a float64 computation -- every observation must agree with the all-float64 run up to rounding
+        (a silent down-cast of a float64 operand costs >= 1e-9)"""
+        ob, fails = hist_run(d)
+        dU = C.U(d)
+        if _has_prec(dU):
+            ob2, _ = hist_run(C.J(_strip_prec(dU)))
+            for (n1, a1, _), (n2, a2, _) in zip(ob.items, ob2.items):
+                if n1 != n2 or not gtlib.close(a1, a2, tol=1e-10):
+                    fails.append(fail(["*"], "a parameter given as a float32 array (exactly representable values) changes the float64 result beyond "
+                                      "rounding: %s" % n1, "precision", None, relerr=(gtlib.relerr(a1, a2) if a1.shape == a2.shape else None)))
+                    break
+        return ob, fails
+    return wrapped
+
+
+def _with_history(run):
     def wrapped(d):
         dU = C.U(d)
         if not has_history(dU):
@@ -444,6 +482,11 @@ def npS(p):
 
 
 # ------------------------------------------------------------------ scenarios
+def _neg(idx, mask, D):
+    """the same coordinates, those flagged in mask written as negative (from-the-end) indices"""
+    return [i - D if (mask and mask[k]) else i for k, i in enumerate(idx)]
+
+
 def gen_scn(g, scn, **kw):
     """One rational case of scenario scn; shapes are passed in kw."""
     R, D = kw.get("R", 1), kw.get("D", 2)
@@ -464,7 +507,10 @@ def gen_scn(g, scn, **kw):
         if idx is None:
             k = g.randint(1, D)
             idx = list(range(D)); g.shuffle(idx); idx = idx[:k]
-        return dict(scn=scn, p=gen_pdfv(g, R, D, diag=kw.get("diag", False), history=True), idx=idx, xs=g.mat(3, len(idx)))
+        d = dict(scn=scn, p=gen_pdfv(g, R, D, diag=kw.get("diag", False), history=True), idx=idx, xs=g.mat(3, len(idx)))
+        if g.randint(0, 3) == 0:
+            d["neg"] = [g.randint(0, 1) for _ in idx]          # these coordinates are addressed from the end (i - D)
+        return d
     if scn == "linsum":
         ds = kw.get("ds") or g.randint(1, D)
         while True:
@@ -484,7 +530,10 @@ def gen_scn(g, scn, **kw):
         dx = list(comp)
         if explicit:
             g.shuffle(dx)
-        return dict(scn=scn, p=gen_pdfv(g, R, D, history=True), dy=idx, dx=dx, explicit=explicit, xs=g.mat(3, D))
+        d = dict(scn=scn, p=gen_pdfv(g, R, D, history=True), dy=idx, dx=dx, explicit=explicit, xs=g.mat(3, D))
+        if explicit and g.randint(0, 1) == 0:
+            d["negy"] = [g.randint(0, 1) for _ in idx]; d["negx"] = [g.randint(0, 1) for _ in dx]   # addressed from the end (i - D)
+        return d
     Dy, Dx = kw.get("Dy", 2), kw.get("Dx", 2)
     cls = kw.get("cls", "full")
     Rc, Rx = kw.get("Rc", 1), kw.get("Rx", 1)
@@ -658,7 +707,7 @@ def run_impl(d):
         p = impl_pdfv(d["p"])
         Sig, mu = npS(d["p"])
         idx = d["idx"]
-        m = p.get_marginal(jnp.array(idx))
+        m = p.get_marginal(jnp.array(_neg(idx, d.get("neg"), d["p"]["D"])))
         obs_all(ob, m, d["xs"])
         is_normal(fails, m, mu[:, idx], Sig[:, idx][:, :, idx], d["xs"], "pdf.get_marginal", ["C05", "C02"])
         consistency(fails, m, "pdf.get_marginal", pdf=True)
@@ -679,7 +728,7 @@ def run_impl(d):
         Sig, mu = npS(d["p"])
         dy, dx = d["dy"], d["dx"]
         if d["explicit"]:
-            c = p.condition_on_explicit(jnp.array(dy), jnp.array(dx))
+            c = p.condition_on_explicit(jnp.array(_neg(dy, d.get("negy"), d["p"]["D"])), jnp.array(_neg(dx, d.get("negx"), d["p"]["D"])))
         else:
             c = p.condition_on(jnp.array(dy))
         obs_cond(ob, c)
